@@ -1330,12 +1330,16 @@ class C01(fw.Prop):
         return depth2 and nonlocal_
 
     def describe(self, case, obs):
-        o = {k: v for k, v in obs.items() if k not in ("prog", "_conv", "doc")}
+        o = {k: v for k, v in obs.items() if k not in ("prog", "_conv", "doc", "doc2")}
+        if obs.get("doc2") is not None:
+            o["envelope_document_differs"] = True
         if "doc" in obs:
             o["nodes"] = len(obs["doc"]["nodes"])
             o["edges"] = len(obs["doc"]["edges"])
             if not obs.get("fake", True) or obs.get("_show_doc"):
                 o["doc"] = obs["doc"]
+                if obs.get("doc2") is not None:
+                    o["envelope_doc"] = obs["doc2"]
         return {"input": case, "program": obs.get("prog"), "observed": o}
 
     def signature(self, case, obs, ctx):
